@@ -15,6 +15,7 @@ type Config struct {
 	PtyCols           int    `json:"pty_cols,omitempty"`
 	Delay             bool   `json:"delay,omitempty"`               // WithRenderDelay, released by a "release" step
 	DelaySleepRelease bool   `json:"delay_sleep_release,omitempty"` // the epilogue's release of a pending delay is followed by a 25 ms pause instead of empty Writes
+	DebugNil          bool   `json:"debug_nil,omitempty"`           // WithDebugOutput(nil)
 	OutSlowUs         int    `json:"out_slow_us,omitempty"`         // every Write of the (buffer) output takes this long
 	DebugSlowUs       int    `json:"debug_slow_us,omitempty"`       // every Write of the debug output takes this long
 	DelayNever        bool   `json:"delay_never,omitempty"`         // the render delay is never released, not even before Wait
@@ -35,6 +36,7 @@ type DecorSpec struct {
 	Listener bool     `json:"listener,omitempty"`
 	Ewma     bool     `json:"ewma,omitempty"`
 	SlowUs   int      `json:"slow_us,omitempty"`  // Decor sleeps this long (widens race windows)
+	PeerBar  int      `json:"peer_bar,omitempty"` // 1+index of an earlier bar whose Current() this decorator reads each time it is drawn (0 = none)
 	ViaAny   bool     `json:"via_any,omitempty"`  // built with decor.Any(fn, <default WC>, <this WC>) instead of the harness's own decorator type
 	Disabled bool     `json:"disabled,omitempty"` // switched off with decor.OnCondition(d, false): every wrapper must pass the nil on, the bar does not get it
 }
@@ -63,6 +65,7 @@ type BarSpec struct {
 }
 
 // Step is one client operation.
+// An "add2" step adds the bars Bar and N from two goroutines at the same time.
 // An "add" step with Flag set requests a frame from inside one of its option callbacks (the frame cannot be
 // served before Add is through). A "tick" step whose Text is "prio", "uprio" or "uprio-lazy" carries a priority change (Bar, N) that a
 // client goroutine issues while that render cycle is in progress.
